@@ -251,3 +251,76 @@ def server_build_environ(B):
 def _eq(ctx, a, b):
     v = E.values_equal(ctx, a, b)
     return v if isinstance(v, bool) else mk(v, "bool")
+
+
+# ------------------------------------------------------------------------------------------------ client side: the path a Requester keeps
+
+REQR = "hio.core.http.clienting:Requester"
+
+
+class StopHere(Exception):
+    """raised by the header mapping model: the analysed prefix of build() (target and start line) ends where headers begin"""
+
+
+@contract(REQR + ".build", props=["C14"], name=REQR + ".build[prefix: request target]")
+def requester_build_target(B):
+    """the part of build() that forms the request target.  The Requester keeps the DECODED path (so a later build / rebuild that
+    does not pass the path again quotes it exactly once more, not twice); what goes on the wire is QUOTE(path); scheme, port and
+    hostname in the path argument must agree with the open connection (ValueError otherwise); the query arguments are merged by
+    updateQargsQuery.  The rest of build() (headers, body, JSON, form data) is covered by the bounded tier."""
+    ctx = B.ctx
+    log = ctx.ghost["log"] = []
+    path0 = B.of("str", "path")
+    sp = dict(path=B.of("str", "sp.path"), query=B.of("str", "sp.query"), fragment=B.of("str", "sp.fragment"))
+    agree = B.choice(True, False, label="target-agrees-with-connection")
+
+    class Splits:
+        def getattr(self, c, r, name):
+            if name in sp:
+                return sp[name]
+            if name in ("scheme", "hostname"):
+                return "" if agree else c.fresh("str", "other." + name)
+            if name == "port":
+                return None if agree else c.fresh("int", "other.port")
+            if name == "geturl":
+                return ModelFn(lambda cc, aa, kk: cc.fresh("str", "target"), "geturl")
+            raise Undecided("urlsplit attribute " + name)
+    splits_of = []
+
+    def urlsplit(c, a, k):
+        splits_of.append(a[0])
+        return c.alloc("ext", init={"model": Splits()})
+    B.prog.externals["urllib.parse.urlsplit"] = urlsplit
+    quoted = []
+
+    def quote(c, a, k):
+        quoted.append(a[0])
+        return SV(QUOTE(z(a[0])), "str")
+    B.prog.externals["urllib.parse.quote"] = quote
+    B.prog.text_models["format"] = lambda c, s, a, k: c.fresh("str", "fmt")
+    B.prog.text_models["encode"] = lambda c, s, a, k: c.fresh("bytes", "encoded")
+    merged = B.uid("Qargs", "merged")
+    B.prog.modular["hio.core.http.httping:updateQargsQuery"] = Stub(lambda c, a, k: (log.append(("updateQargsQuery", a[0], a[1])), (merged, c.fresh("str", "query")))[1])
+
+    class Hdrs:
+        def contains(self, c, r, key):
+            raise PyExc(ExcVal(StopHere, ("headers",)))
+    qargs0 = B.uid("Qargs", "qargs")
+    self = B.obj(REQR, hint="requester", path=path0, scheme=B.of("str", "scheme"), port=B.int("port"), hostname=B.of("str", "hostname"), qargs=qargs0,
+                 fragment=B.of("str", "fragment0"), method=B.of("str", "method"), headers=B.ext(Hdrs()), lines=None, HttpVersionString="HTTP/1.1")
+    B.call(self, qual=REQR + ".build")
+    st = ctx.st(self)
+    if B.raised(ValueError):
+        B.handled = True
+        B.prove("ValueError-only-when-the-target-names-another-scheme-port-or-host", not agree, top=True)
+        B.no_other_exception()
+        return
+    B.prove("reaches-the-header-section", bool(B.raised(StopHere)), top=True)
+    if not B.raised(StopHere):
+        return
+    B.handled = True
+    B.prove("splits-the-path-it-holds", len(splits_of) >= 1 and splits_of[0] is path0, top=True)
+    B.prove("keeps-the-DECODED-path (quoting happens on the wire copy only)", st["path"] is sp["path"], top=True)
+    B.prove("quotes-that-path-exactly-once-for-the-wire", len(quoted) == 1 and quoted[0] is sp["path"], top=True)
+    B.prove("query-arguments-merged-with-the-paths-query", [e for e in log if e[0] == "updateQargsQuery"] == [("updateQargsQuery", qargs0, sp["query"])] and
+            st["qargs"] is merged, top=True)
